@@ -25,6 +25,10 @@ def lower_bound(facts, var):
     return lb
 
 
+MEMFUNCS = ("memset", "memcpy", "memmove", "__builtin_memset", "__builtin_memcpy", "__builtin_memmove",
+            "__builtin___memset_chk", "__builtin___memcpy_chk", "__builtin___memmove_chk")
+
+
 def native_accesses(fn, unit, stmt, ptr_names):
     """Yield (record, field, offset_bytes, size_bytes, node, is_write_target) for accesses through the native pointer(s)."""
     for n in walk(stmt):
@@ -35,6 +39,18 @@ def native_accesses(fn, unit, stmt, ptr_names):
                 f = rec.field(n["field"])
                 if f is not None and f.get("bits") is not None:
                     yield rec.name, n["field"], f["off"] // 8, f["bits"] // 8, n
+        if n["k"] == "call" and n.get("callee") in MEMFUNCS and len(n["args"]) >= 3:
+            # a block operation on the buffer itself: bytes [k, k + size) of it
+            ptrs = [n["args"][0]] + ([n["args"][1]] if "cpy" in n["callee"] or "move" in n["callee"] else [])
+            for a in ptrs:
+                pa = strip_casts(a)
+                off = 0
+                if pa is not None and pa["k"] == "bin" and pa["op"] == "+" and cv(pa["r"]) is not None:
+                    off = cv(pa["r"])
+                    pa = strip_casts(pa["l"])
+                if pa is not None and pa["k"] == "ref" and pa["name"] in ptr_names:
+                    size = cv(n["args"][2])
+                    yield "buffer", "[%d..]" % off, off, (size if size is not None else 1 << 30), n
 
 
 def run(prog, rep):
@@ -374,6 +390,10 @@ def family_stores(fn, u, field):
 RENAME_LOCALS = ['src/psocketaddress.c']
 
 SELFTEST = [
+    dict(id="to-native-clears-whole-struct-before-guard", file="src/psocketaddress.c", expect="C17.1",
+         old="\t\tif (P_UNLIKELY (destlen < sizeof (struct sockaddr_in))) {", new="\t\tmemset (sin, 0, sizeof (struct sockaddr_in));\n\n\t\tif (P_UNLIKELY (destlen < sizeof (struct sockaddr_in))) {"),
+    dict(id="to-native-clears-whole-struct-after-guard-neutral", file="src/psocketaddress.c", expect=None,
+         old="\t\tmemcpy (&sin->sin_addr, &addr->addr.sin_addr, sizeof (struct in_addr));\n\t\tsin->sin_family = AF_INET;", new="\t\tmemset (sin, 0, sizeof (struct sockaddr_in));\n\t\tmemcpy (&sin->sin_addr, &addr->addr.sin_addr, sizeof (struct in_addr));\n\t\tsin->sin_family = AF_INET;"),
     dict(id="family-read-unguarded-again", file="src/psocketaddress.c", expect="C17.1",
          old="len < sizeof (struct sockaddr)))", new="len == 0))"),
     dict(id="ipv6-length-guard-dropped", file="src/psocketaddress.c", expect="C17.1",
